@@ -40,18 +40,12 @@ pub fn same_entries(o: &Object, m: &M) -> bool {
 
 pub fn positions(m: &M, k: &str) -> Vec<usize> { m.iter().enumerate().filter(|(_, e)| e.0 == k).map(|(i, _)| i).collect() }
 
-pub fn describe(m: &M) -> String {
-    let mut s = String::from("[");
-    for (i, (k, v)) in m.iter().enumerate() { if i > 0 { s.push_str(", "); } s.push_str(&format!("{:?}: {}", k, v)); }
-    s.push(']');
-    s
+fn abbreviate(items: Vec<String>) -> String {
+    if items.len() <= 24 { format!("[{}]", items.join(", ")) }
+    else { format!("[{}, … ({} entries) …, {}]", items[..8].join(", "), items.len(), items[items.len() - 8..].join(", ")) }
 }
-pub fn describe_obj(o: &Object) -> String {
-    let mut s = String::from("[");
-    for (i, e) in o.entries().iter().enumerate() { if i > 0 { s.push_str(", "); } s.push_str(&format!("{:?}: {}", e.key.as_str(), e.value)); }
-    s.push(']');
-    s
-}
+pub fn describe(m: &M) -> String { abbreviate(m.iter().map(|(k, v)| format!("{:?}: {}", k, v)).collect()) }
+pub fn describe_obj(o: &Object) -> String { abbreviate(o.entries().iter().map(|e| format!("{:?}: {}", e.key.as_str(), e.value)).collect()) }
 
 /// `push` / `push_entry`: append; `true` iff the key was not present.
 pub fn push(m: &mut M, k: &str, v: Value) -> bool { let fresh = !m.iter().any(|e| e.0 == k); m.push((k.to_string(), v)); fresh }
